@@ -437,6 +437,91 @@ func checkBookkeeping(c *Ctx) {
 	} else {
 		c.Lost("R7.3", "the single-definition helper")
 	}
+	// the distinct-values helper: every singly-defined terminal takes part in the grouping by value, every group of two or more is reported
+	var distinct *ast.FuncDecl
+	AllFuncDecls(sp, func(fd *ast.FuncDecl) {
+		if fd.Recv == nil || fd.Body == nil || recvName(fd.Recv.List[0].Type) != "SymbolTable" {
+			return
+		}
+		ast.Inspect(fd.Body, func(n ast.Node) bool {
+			if as, ok := n.(*ast.AssignStmt); ok && len(as.Lhs) == 1 {
+				if ix, ok := as.Lhs[0].(*ast.IndexExpr); ok {
+					if sel, ok := ast.Unparen(ix.Index).(*ast.SelectorExpr); ok && sel.Sel.Name == "Value" {
+						distinct = fd
+					}
+				}
+			}
+			return true
+		})
+	})
+	if distinct != nil {
+		c.Analysed(funcKey(sp, distinct))
+		var stack []ast.Node
+		groupedUncond, found := true, false
+		extra := ""
+		ast.Inspect(distinct.Body, func(n ast.Node) bool {
+			if n == nil {
+				stack = stack[:len(stack)-1]
+				return true
+			}
+			stack = append(stack, n)
+			as, ok := n.(*ast.AssignStmt)
+			if !ok || len(as.Lhs) != 1 {
+				return true
+			}
+			ix, ok := as.Lhs[0].(*ast.IndexExpr)
+			if !ok {
+				return true
+			}
+			if sel, ok := ast.Unparen(ix.Index).(*ast.SelectorExpr); !ok || sel.Sel.Name != "Value" {
+				return true
+			}
+			found = true
+			for _, anc := range stack {
+				ifs, ok := anc.(*ast.IfStmt)
+				if !ok {
+					continue
+				}
+				cond := types.ExprString(ifs.Cond)
+				// the only admissible condition: the terminal has exactly one definition
+				if b, ok := ast.Unparen(ifs.Cond).(*ast.BinaryExpr); ok && b.Op == token.EQL {
+					if v, ok := constInt(info, b.Y); ok && v == 1 && strings.HasPrefix(types.ExprString(b.X), "len(") {
+						continue
+					}
+				}
+				groupedUncond = false
+				extra = cond
+			}
+			return true
+		})
+		c.Check("R7.3", "every singly-defined terminal takes part in the same-value check", distinct.Pos(), found && groupedUncond,
+			"definitions are grouped by value only under the extra condition `"+extra+"`: some terminals (e.g. string literals used in rules) escape the 'two terminals with the same value' check", "start = \"if\" KW;  KW = /if/")
+		reports := false
+		ast.Inspect(distinct.Body, func(n ast.Node) bool {
+			ifs, ok := n.(*ast.IfStmt)
+			if !ok {
+				return true
+			}
+			if b, ok := ast.Unparen(ifs.Cond).(*ast.BinaryExpr); ok && ((b.Op == token.GTR) || (b.Op == token.GEQ)) {
+				v, okc := constInt(info, b.Y)
+				if okc && ((b.Op == token.GTR && v == 1) || (b.Op == token.GEQ && v == 2)) {
+					ast.Inspect(ifs.Body, func(m ast.Node) bool {
+						if call, ok := m.(*ast.CallExpr); ok {
+							if fo, ok := objOf(info, call.Fun).(*types.Func); ok && fo.Name() == "Append" {
+								reports = true
+							}
+						}
+						return true
+					})
+				}
+			}
+			return true
+		})
+		c.Check("R7.3", "two terminals with the same value are reported", distinct.Pos(), reports, "no error is recorded for a value shared by two or more definitions")
+	} else {
+		c.Lost("R7.3", "the distinct-values helper")
+	}
+
 	// Definitions(): keeps len == 1, sorted by a comparator whose last step compares the terminals
 	if fd := FuncDecl(sp, "SymbolTable", "Definitions"); fd != nil {
 		c.Analysed(funcKey(sp, fd))
